@@ -460,3 +460,29 @@ Proof.
   rewrite <- (select_last ops (split_names (ch :: key)) (split_names_nonnil _)).
   destruct (lookup _ _); cbn [snd option_map]; auto.
 Qed.
+
+(* ------------------------------------------------------------------ concrete witnesses *)
+(* list-form delete does not strip: [" a"] misses the section "a" that the string " a" finds *)
+Lemma delete_list_verbatim_example :
+  let d := add_single (of_ascii "a") (text_section (of_ascii "a") [] false) [] in
+  card_delete_list [of_ascii " a"] d = Raise EKey /\ card_delete (of_ascii " a") d = Ok [].
+Proof. split; vm_compute; reflexivity. Qed.
+
+(* a history on which every hypothesis used above holds and every clause is exercised *)
+Definition demo_ops : list op :=
+  [ OAdd false [(of_ascii "A", of_ascii "1"); (of_ascii "A/B", of_ascii "2"); (of_ascii " C \/ D / E", of_ascii "3")];
+    OAdd true [(of_ascii "A", of_ascii "4")];
+    ODelete (of_ascii "A/B");
+    OAdd false [(of_ascii "A/B/F", of_ascii "5")] ].
+
+Lemma nonvacuous :
+  let d := data (run_card demo_ops empty_card) in
+  keys d = [of_ascii "A"; of_ascii "C / D"]
+  /\ option_map shallow (lookup [of_ascii "A"] d) = Some (of_ascii "A", of_ascii "4", true, true, KText)
+  /\ children [of_ascii "A"] d = Some [of_ascii "B"]
+  /\ option_map content (lookup [of_ascii "A"; of_ascii "B"] d) = Some []
+  /\ option_map content (lookup [of_ascii "C / D"; of_ascii "E"] d) = Some (of_ascii "3")
+  /\ snd (run_op (OSelect (of_ascii "A/X")) (run_card demo_ops empty_card)) = Failed EKey
+  /\ snd (run_op (OSelectChain [of_ascii "C \/ D"; of_ascii "E"]) (run_card demo_ops empty_card))
+     = snd (run_op (OSelect (of_ascii "C \/ D/E")) (run_card demo_ops empty_card)).
+Proof. repeat split; vm_compute; reflexivity. Qed.
